@@ -27,6 +27,9 @@ CLAIMS = {
  "C09": ("Lean 4 theorems (Props/C09.lean, 28): for every non-empty well-formed header map and every key length with fan-out >= 3 (K <= 2032) the index file built by the modelled serializer answers get_latest / find_by_key exactly like the in-memory vectors (ondisk_latest_eq, ondisk_all_eq, ondisk_eq_inmem), count_eq, load_build, plus leaf packing, window binary search, run collection across the buffer/file hand-over, portions, absolute layer offsets and descent (descent_finds_leaf). Tie: the L4 byte image of every index file (hash and filter section masked) is compared with the real file, and every look-up goes through the real file after settle; key lengths {1,4,8,33,128,1000}.",
          "4/C09", "fan-out 2 (K in 2033..4039: debug-build underflow on a key-less node) and rhs > block (K >= 4040: stored keys missed) are outside the property range 1..1000 and recorded as observations with decide-witnesses",
          "Lean 4 proof of the B+tree build/look-up model + byte-exact index-file correspondence"),
+ "C10": ("Lean 4 theorems (Props/C10.lean, 31) for an arbitrary hash family: bloom add/mono/merge/zero sizes, file_probe_eq_mem (byte probe of the little-endian image = in-memory bit, any bit count), save/raw/filters round-trips, bloom_offset_correct, range_no_fn/merge_hull, combined_no_fn, the container invariant node_filter_sup preserved by push (all cases), pop, re-push, offload, possible_rev_complete, check_filter_no_fn (= the hypothesis of C01's prune_transparent). Tie: pearl::Bloom is driven directly and every answer, serialized image, merge, file probe, off-load and reload is compared bit for bit with the model running its Lean port of the vendored aHash fallback hasher (pinned vectors reproduced); storage-level check_filters/check_filter are judged by a no-false-negative oracle over histories with offloads, restores and restarts.",
+         "4/C10", "bits_count (f64 formula) is an input; the literal stack-machine iterator is tied to the recursive one by #guard tests only (listed NOT YET PROVED); storage-level filter bits are not compared bit-exactly",
+         "Lean 4 proofs over filter/container models + bit-exact correspondence on the Bloom type + no-false-negative oracle"),
  "C12": ("Tap-trace predicates on the implementation for every dirty-byte limit (header synced before the first record of a new blob; index header with written bit only after a sync of its blob covering blob_size, followed by the index's own sync; no un-synced bytes after explicit fsyncdata or close of the active blob; un-synced bytes <= limit at quiescence); Lean 4 L6 event model and Props/C12.lean theorems over all operation sequences are in progress (trace correspondence).",
          "4/C12", "sync_all durability is the OS's promise; quiescence = worker queue drained and no blocking closure running; the window 'bytes acknowledged while a background sync is in flight' is examined by C08/C14 scenarios",
          "Lean 4 proof over the file-operation trace model + tap-trace predicates on the implementation"),
